@@ -15,6 +15,7 @@ type Path struct {
 	Fn     *ssa.Function
 	Blocks []*ssa.BasicBlock
 	Atoms  []Atom
+	Last   []Atom            // atoms contributed by the last branch taken on the path
 	Instrs []ssa.Instruction // every instruction on the path in order
 	Ret    *ssa.Return       // nil if the path ends in panic or was cut
 	Cut    bool              // a back edge was skipped
@@ -42,7 +43,7 @@ func (c *Ctx) enumPaths(fn *ssa.Function, max int) (paths []*Path, complete bool
 }
 
 func (p *Path) fork() *Path {
-	n := &Path{Fn: p.Fn, Env: p.Env.clone(), Cut: p.Cut}
+	n := &Path{Fn: p.Fn, Env: p.Env.clone(), Cut: p.Cut, Last: p.Last}
 	n.Blocks = append([]*ssa.BasicBlock(nil), p.Blocks...)
 	n.Atoms = append([]Atom(nil), p.Atoms...)
 	n.Instrs = append([]ssa.Instruction(nil), p.Instrs...)
@@ -110,11 +111,13 @@ func (w *pathWalker) walk(b, pred *ssa.BasicBlock, p *Path, on map[*ssa.BasicBlo
 			if !contradicts(p.Atoms, tAtoms) {
 				q := p.fork()
 				q.Atoms = append(q.Atoms, tAtoms...)
+				q.Last = tAtoms
 				w.next(b, b.Succs[0], q, on)
 			}
 			if !contradicts(p.Atoms, fAtoms) {
 				q := p.fork()
 				q.Atoms = append(q.Atoms, fAtoms...)
+				q.Last = fAtoms
 				w.next(b, b.Succs[1], q, on)
 			}
 			return
